@@ -12,7 +12,7 @@ import (
 func init() {
 	register(&propInfo{
 		id: "C08", fn: checkC08, multiConfig: true,
-		explanation: "Path coherence decided on the bookkeeping code itself: (r1) renameChildTo is called exactly on the success side of the backend RenameAt with the same directory, names and target, markChildDeleted exactly on the success side of UnlinkAt with the same directory and name, and every successful exit after such a backend call has passed the bookkeeping call; (r2) Trename/Tremove take the entry's name from nameFor on the current parent while holding renameMu for write; (r3) renameChildTo, notifyNameChange, notifyDelete and markChildDeleted have the required shape — overwritten target fenced first, each moved reference's parent released / re-pointed / re-acquired, re-registered under the new name in the target's node, told Renamed(target.file, newName), the detached subtree re-attached under the target's node and notified recursively through both child references and child nodes, deletion marks propagated recursively; (r4) the fencing table: deleted → EINVAL dominates the backend call (or state change) of every path-dependent handler, deleted → ENOENT every walk step, and read/write/fsync/getattr are deliberately not fenced; (r5) childRefs and childRefNames are updated together and under childMu:W in every path_tree function, removeWithName also detaches the child node, a clone of a deleted reference is not registered; (r6) every reference literal with a parent is registered in the parent's node under the name it was walked/created with. (r7) removal and fencing are one step for the fids bound to the entry: UnlinkAt and markChildDeleted run under the write lock of the entry's path node (the rule of C07.r3).",
+		explanation: "Path coherence decided on the bookkeeping code itself: (r1) renameChildTo is called exactly on the success side of the backend RenameAt with the same directory, names and target, markChildDeleted exactly on the success side of UnlinkAt with the same directory and name, and every successful exit after such a backend call has passed the bookkeeping call; (r2) Trename/Tremove take the entry's name from nameFor on the current parent while holding renameMu for write; (r3) renameChildTo, notifyNameChange, notifyDelete and markChildDeleted have the required shape — overwritten target fenced first, each moved reference's parent released / re-pointed / re-acquired, re-registered under the new name in the target's node, told Renamed(target.file, newName), the detached subtree re-attached under the target's node and notified recursively through both child references and child nodes, deletion marks propagated recursively; (r4) the fencing table: deleted → EINVAL dominates the backend call (or state change) of every path-dependent handler, deleted → ENOENT every walk step, and read/write/fsync/getattr are deliberately not fenced; (r5) childRefs and childRefNames are updated together and under childMu:W in every path_tree function, removeWithName also detaches the child node, a clone of a deleted reference is not registered; (r6) every reference literal with a parent is registered in the parent's node under the name it was walked/created with. (r7) removal and fencing are one step for the fids bound to the entry: UnlinkAt and markChildDeleted run under the write lock of the entry's path node (the rule of C07.r3). (r8) references stay registered as long as their fid is held: the reference balance of C05.r3 (a directory reference released once too often is unregistered from the path tree and misses later renames).",
 		assumptions: []string{"which object a name denotes after k renames is runtime state; only the per-step bookkeeping discipline is decided"},
 	})
 }
@@ -31,6 +31,11 @@ func checkC08(r *Run) {
 	// request bound to the entry runs between the two.
 	if r.borrowed == nil {
 		r.borrow(checkC07, map[string]string{"r3": "r7"})
+		// r8: a fid keeps denoting its object only while its reference - and the parent
+		// references below it - stay alive: acquisitions and releases cancel on every path
+		// (the balance rule of C05.r3); a parent released once too often is closed and
+		// unregistered under a fid the client still holds, and is no longer told of renames
+		r.borrow(checkC05, map[string]string{"r3": "r8"})
 	}
 }
 
@@ -253,7 +258,20 @@ func c08Shapes(r *Run, m *ServerModel) {
 					}
 					return true
 				})
-				want(decPos != 0 && setOK && incPos != 0 && decPos < setPos && setPos < incPos, "parent reference handed over",
+				// ... on every path through the callback (a fast path that only re-points parent
+				// leaves the child without a reference on its new parent)
+				onEvery := false
+				for _, ex := range m.DB.Exits[fi] {
+					if ex.Fn != ast.Node(lit) || ex.St.Dead {
+						continue
+					}
+					onEvery = true
+					if !ex.St.Must["p9.fidRef.DecRef"] || !ex.St.Must["p9.fidRef.IncRef"] {
+						onEvery = false
+						break
+					}
+				}
+				want(decPos != 0 && setOK && incPos != 0 && decPos < setPos && setPos < incPos && onEvery, "parent reference handed over",
 					"old parent released, parent = target, new parent acquired (in this order)", "a moved reference does not release its old parent, point to the target and acquire it (in this order): parent reference counts go wrong", lit.Pos())
 				want(addOK && addPos == 0, "re-registered under the new name", target+".pathNode.addChild[Locked]("+cbRef+", "+newName+")", "a moved reference is not registered in the target directory's node under the new name", lit.Pos())
 				want(renOK, "backend told", cbRef+".file.Renamed("+target+".file, "+newName+")", "the moved File is not told its new parent and name with Renamed(target.file, newName)", func() token.Pos {
@@ -356,6 +374,12 @@ func c08Shapes(r *Run, m *ServerModel) {
 			}
 		}
 		r.check(okRefs && okRen, "r3", "notifyNameChange: every child reference told", fi.Decl.Pos(), "forEachChildRef → ref.file.Renamed(ref.parent.file, name)", "child references are not each told Renamed(parent file, their name)")
+		// parents before children: a File derives its new path from its parent's at the moment
+		// it is told (localfs: path = Join(parent.path, name)), so the references of a node are
+		// told before the notification descends
+		okOrder := refs != nil && nodes != nil && nodes.St.Must["p9.pathNode.forEachChildRef"]
+		r.check(okOrder, "r3", "notifyNameChange: a node's references are told before its subtrees", fi.Decl.Pos(), "forEachChildRef precedes forEachChildNode",
+			"the notification descends into child nodes before the references of the node itself are told: Files two or more levels below the renamed entry compute their new path from a parent that still has its old one")
 		r.check(nodes != nil && recvStr(res, nodes.Call) == pn && recursesOnCallbackArg(info, nodes.Call, fi.Obj), "r3", "notifyNameChange: recursion into child nodes", fi.Decl.Pos(), "forEachChildNode → notifyNameChange(child)", "the notification does not recurse into every child node: deeper descendants keep stale paths")
 	}
 	if fi := r.mustFunc("r3", "p9", "notifyDelete"); fi != nil {
